@@ -444,6 +444,19 @@ func c10RunChunk(c *core.Ctx, sc *impl.Scratch, fc string, leaves, types []*c10T
 	if err != nil {
 		panic(err)
 	}
+	// the driver is compiled together with what fc emitted for the type universe: if THAT does not compile, `=` on
+	// these types cannot even be evaluated - a verdict about fc, not a harness failure
+	defer func() {
+		if r := recover(); r != nil {
+			msg := fmt.Sprint(r)
+			if strings.Contains(msg, "gen_types.go:") {
+				c.Violation("C10:emitted-declarations-do-not-compile", "the Go that fc emitted for the generated type declarations and their `=` / `<>` functions does not compile: "+firstLines(msg[strings.Index(msg, "gen_types.go:"):], 3),
+					map[string]any{"input": map[string]string{"types.fo": fo.String()}, "observed": trunc(msg, 3000)})
+				return
+			}
+			panic(r)
+		}
+	}()
 	rep := runDriver(c, sc, "c10", map[string]string{"gen_types.go": "//go:build driver\n\n" + string(gen), "values_gen.go": gov.String()}, 20*time.Minute, c.Tier)
 	_ = rep
 }
